@@ -16,6 +16,10 @@ plus a shape clause: the front scan leaves its inner loop only when the candidat
    front (by identity), makes every later front the non-dominated set of the not yet ranked and sets each
    member's rank to its front index (C14.assignment).
 The statistical preference of rank selection beyond monotonicity is not decided.
+Further clauses (added later): C14.assignment interprets compute_ranking_assignment over populations with
+structurally equal individuals (partition by identity, rank == front index). RankSelection.get_index
+additionally satisfies a frequency law over a fixed grid of draws (better ranks are selected at least as
+often).
 """
 
 from __future__ import annotations
